@@ -79,7 +79,15 @@ func (ex *Exec) isPureCallee(name string) bool {
 	return false
 }
 
-func (ex *Exec) externModel(name string) *ExternModel { return externModels[name] }
+func (ex *Exec) externModel(name string) *ExternModel {
+	if m, ok := externModels[name]; ok {
+		return m
+	}
+	if strings.HasPrefix(name, "slices.SortStableFunc[") {
+		return &ExternModel{Apply: sortModel}
+	}
+	return nil
+}
 
 // interface-method kinds: "pure" (function of receiver and args), "global" (function of args only),
 // "readonly" (fresh results, no writes), "" (may write through pointer arguments).
@@ -336,6 +344,10 @@ func init() {
 			if !ok || !ok2 {
 				return nil, false
 			}
+			if a == b {
+				// a time is neither before nor after itself
+				return BoolC(m == "Equal"), true
+			}
 			return App("time_"+strings.ToLower(m), SBool, a, b), true
 		})
 	}
@@ -396,4 +408,38 @@ func lockKey(p *PtrV) string {
 		key += fmt.Sprintf(".%d", pe.Field)
 	}
 	return key
+}
+
+// sortModel: slices.SortStableFunc(s, cmp). A stable sort under a comparator that says "equal" for every
+// pair leaves the slice as it is; for any other comparator the resulting order is unknown (a permutation).
+func sortModel(ex *Exec, st *State, fr *Frame, ins ssa.Instruction, args []Value) (Value, bool) {
+	s, ok := args[0].(*SliceV)
+	fv, ok2 := args[1].(*FuncV)
+	if !ok || !ok2 || s.Obj == nil {
+		return nil, false
+	}
+	i := ex.G.FreshInt("sort_i", types.Typ[types.Int])
+	j := ex.G.FreshInt("sort_j", types.Typ[types.Int])
+	a := ex.sliceElem(st, s, i)
+	b := ex.sliceElem(st, s, j)
+	results, complete := ex.evalClosure(st, fv, []Value{a, b})
+	allEqual := complete && len(results) > 0
+	for _, r := range results {
+		t, ok := r.(*Term)
+		if !ok || !t.IsConstInt() || t.I.Sign() != 0 {
+			allEqual = false
+		}
+	}
+	if allEqual {
+		return &TupleV{}, true
+	}
+	// unknown order: the elements are a permutation of the old ones; positions are no longer known
+	root := ex.objVal(st, s.Obj)
+	if back, ok := ex.readPath(st, root, s.Path, s.Obj.Typ).(*SymSeq); ok {
+		ex.G.n++
+		st.Heap[s.Obj] = ex.writePath(st, root, s.Path, &SymSeq{ID: ex.G.n, Elem: back.Elem, Name: back.Name + "_sorted"}, s.Obj.Typ)
+	} else {
+		ex.havocReach(st, s, map[*Object]bool{})
+	}
+	return &TupleV{}, true
 }
